@@ -868,6 +868,7 @@ def harness_specs(quick):
     add("lazy_tables", ("desint:a", "desblock:b"), b2)
     add("lazy_tables", ("blowfish:a", "blowfish:b"), b2)
     add("lazy_tables", ("lookup:sha256", "lookup:sha256"), b2)
+    add("lazy_tables", ("lookup:sha512_256", "hmac:sha512_256"), b2)  # a digest hashlib offers only through hashlib.new()
     add("lazy_tables", ("lookup:sha-256", "hmac:sha256"), b2)
     add("pure_python", ("md4:a", "md4:b"), 1)
     add("pure_python", ("md4split:a", "md4split:bb"), 1)
